@@ -27,6 +27,9 @@ CLAIMED = {
     'C17': dict(design='DESIGN.md §3 C17', technique='deterministic simulation with fault injection: seeded wrong-kind corruption of valid objects at the data seams (in flight, text/stream, stored files, saved bundles) through 15 entry points; error-family oracle with watchdog + registry/store failure-atomicity oracle; ddmin replay',
                 text='Stated scope: corruption as a fault (1-3 wrong-kind or degenerate-empty replacements at any depth of a valid object, always JSON-decodable) delivered to parse / constructors / new_version / Bundle / parse_observable and through store add, stored-file read-back and saved-bundle load; the call must terminate and return or raise STIXError/ValueError/TypeError, and after a failing call registries equal their snapshot and stores hold nothing from the failed element. Not claimed: "all JSON values", or that returned objects are fully validated (C02).',
                 note='Trusts: the judged scope rule (store entry points are judged for the error family only when the exception comes out of the parse/construct step); junk ids are ignored by the store atomicity comparison; nesting depth of junk is small.'),
+    'C19': dict(design='DESIGN.md §3 C19', technique='deterministic simulation: process-wide registries as shared state, seeded registration/parse/lookup/use histories, plain-dict reference model compared in full after every op; ddmin replay',
+                text='Seeded search over histories of registrations through the four decorators of both spec versions (fresh, taken, cross-category and rule-breaking names; legal and rule-breaking property lists; the extension_name form) interleaved with parse in strict/custom mode with and without a named version, class_for_type, and construction / round trip / new_version / store traffic of custom instances.',
+                note='Trusts: the naming rules asserted are those in the specification text (type names a-z0-9-, 3-250; 2.1 property names a-z0-9_, 3-250, leading letter; *_ref(s) only on reference properties); unconfirmed rules accept either outcome; objects and observables share one name space.'),
 }
 
 NA = {
